@@ -504,7 +504,7 @@ pub fn supervise_check(sc: &dyn Scenario, tier: Tier) -> i32 {
 fn handle_dead_child(sc: &dyn Scenario, tier: Tier, journal: &str, end: ChildEnd, t0: Instant) -> i32 {
     let prop = sc.prop();
     let seed = seed_from_env();
-    let (mut inflight, started) = crate::watch::read_journal(journal);
+    let (mut inflight, started, distinct_lb, nontrivial_lb) = crate::watch::read_journal(journal);
     let how = match &end {
         ChildEnd::Signal(s) => signal_name(*s),
         _ => "timeout".into(),
@@ -574,7 +574,7 @@ fn handle_dead_child(sc: &dyn Scenario, tier: Tier, journal: &str, end: ChildEnd
         return 2;
     }
     // minimise with evaluation in subprocesses; a hanging case costs its CPU limit per evaluation
-    let (cpu, budget) = if is_hang { (5u64, 10usize) } else { (single_case_cpu_limit_s(), 400usize) };
+    let (cpu, budget) = if is_hang { (2u64, 60usize) } else { (single_case_cpu_limit_s(), 400usize) };
     let ev = |x: &J| eval_in_subprocess(prop, x, cpu);
     let min = sc.minimise_ext(&case, &sig, &ev, budget);
     let fin = if ev(&min).iter().any(|v| v.sig == sig) { min } else { case.clone() };
@@ -605,8 +605,9 @@ fn handle_dead_child(sc: &dyn Scenario, tier: Tier, journal: &str, end: ChildEnd
         "level": sc.evidence(tier, seed).level,
         "coverage": {
             "evaluations": started,
-            "distinct_nontrivial": 0,
-            "rule": "the check process died while executing a run (crash or hang); evaluations = runs started according to the journal, distinctness was not measured because the counters died with the process",
+            "distinct_nontrivial": nontrivial_lb,
+            "distinct_histories": distinct_lb,
+            "rule": format!("the check process died while executing a run (crash or hang). evaluations = runs started according to the journal. The counters of the batch died with the process; distinct_nontrivial / distinct_histories are measured LOWER BOUNDS: the largest count any single worker had noted in the journal at its last 64-run checkpoint (cases counted by one worker are distinct by the rule of the normal run: {})", sc.evidence(tier, seed).rule),
             "samples": [fin],
             "exhaustive": false,
             "process_death": {"how": how, "in_flight": inflight.iter().map(|c| json!({"stage": c.stage, "run": c.run, "hang_flag": c.hang})).collect::<Vec<_>>(), "signature": sig, "clause": clause},
